@@ -6,6 +6,7 @@ import (
 	"github.com/orda-io/orda/client/pkg/iface"
 	"github.com/orda-io/orda/client/pkg/model"
 	"github.com/orda-io/orda/client/pkg/operations"
+	"github.com/orda-io/orda/client/pkg/vhook"
 	"sync"
 )
 
@@ -115,6 +116,7 @@ func (its *TransactionDatatype) BeginTransaction(
 	if its.isLocked && its.txCtx == txCtx {
 		return nil // called after DoTransaction() succeeds.
 	}
+	vhook.At("tx.begin.before-lock")
 	its.txCtx = its.setTransactionContextAndLock(tag)
 	if newTxnOp {
 		op := operations.NewTransactionOperation(tag)
@@ -178,8 +180,10 @@ func (its *TransactionDatatype) EndTransaction(txCtx *TransactionContext, withOp
 func (its *TransactionDatatype) unlock() {
 	if its.isLocked {
 		its.txCtx = nil
+		vhook.At("tx.unlock.1")
 		its.success = true
 		its.mutex.Unlock()
+		vhook.At("tx.unlock.2")
 		its.isLocked = false
 	}
 }
